@@ -2,6 +2,7 @@ package main
 
 import (
 	"fmt"
+	"regexp"
 	"sort"
 	"strings"
 )
@@ -112,22 +113,8 @@ func (e *Eng) buildPrelude() string {
 	for _, c := range fc {
 		fmt.Fprintf(&b, "(define-fun fid.%s () Int %d)\n", c, e.reg.fidByComp[c])
 	}
-	// string literals
-	for i, lit := range e.strLits {
-		fmt.Fprintf(&b, "(declare-fun strlit%d () Bytes) ; %q\n(assert (= (blen strlit%d) %d))\n", i, lit, i, len(lit))
-	}
-	if n := len(e.strLits); n > 1 {
-		b.WriteString("(assert (distinct")
-		for i := 0; i < n; i++ {
-			fmt.Fprintf(&b, " strlit%d", i)
-		}
-		b.WriteString("))\n")
-	}
-	for i, lit := range e.strLits {
-		if lit == "" {
-			fmt.Fprintf(&b, "(assert (= strlit%d eps))\n", i)
-		}
-	}
+	// string literals: declared per query (only those the query mentions), see slimPrelude
+	b.WriteString(";;STRLITS;;\n")
 	b.WriteString(e.extraDecls())
 	// contract-file prelude
 	for _, p := range e.cs.Prelude {
@@ -153,4 +140,45 @@ func (e *Eng) theoryText(uses []string) string {
 		}
 	}
 	return b.String()
+}
+
+var strlitRefRe = regexp.MustCompile(`strlit([0-9]+)`)
+
+// slimPrelude instantiates the string-literal section of the prelude for one query: only the
+// literals that the query text mentions are declared (keeps queries independent of what else was
+// verified in the same run).
+func (e *Eng) slimPrelude(prelude, body string) string {
+	used := map[int]bool{}
+	for _, m := range strlitRefRe.FindAllStringSubmatch(body, -1) {
+		var n int
+		fmt.Sscanf(m[1], "%d", &n)
+		used[n] = true
+	}
+	for _, m := range strlitRefRe.FindAllStringSubmatch(prelude, -1) {
+		var n int
+		fmt.Sscanf(m[1], "%d", &n)
+		used[n] = true
+	}
+	var ids []int
+	for n := range used {
+		if n < len(e.strLits) {
+			ids = append(ids, n)
+		}
+	}
+	sort.Ints(ids)
+	var b strings.Builder
+	for _, i := range ids {
+		fmt.Fprintf(&b, "(declare-fun strlit%d () Bytes) ; %q\n(assert (= (blen strlit%d) %d))\n", i, e.strLits[i], i, len(e.strLits[i]))
+		if e.strLits[i] == "" {
+			fmt.Fprintf(&b, "(assert (= strlit%d eps))\n", i)
+		}
+	}
+	if len(ids) > 1 {
+		b.WriteString("(assert (distinct")
+		for _, i := range ids {
+			fmt.Fprintf(&b, " strlit%d", i)
+		}
+		b.WriteString("))\n")
+	}
+	return strings.Replace(prelude, ";;STRLITS;;\n", b.String(), 1)
 }
